@@ -776,4 +776,216 @@ theorem evalCell_ok (ops : NumOps N) (wb : Coord → Cell N) :
           simp only [m2, if_true]
           rw [v2]; simp [St.finish]
 
+/-! ### top level: `evaluateFrom` / `evaluateAll` -/
+
+/-- between top-level calls no cell is `Evaluating` -/
+def NoEval (s : St N) : Prop := ∀ d, s.mark d ≠ some .evaluating
+
+theorem NoEval.step {s t : St N} (h : Ext s t) (hn : NoEval s) : NoEval t :=
+  fun d hd => hn d (h.back d hd)
+
+theorem evalCell_evaluated_after (ops : NumOps N) (wb : Coord → Cell N) (fuel : Nat) (c : Coord)
+    (s : St N) (e : Expr N) (hw : wb c = .formula e) (hn : NoEval s)
+    (hc : (evalCell ops wb fuel c s).2.oof = false) :
+    (evalCell ops wb fuel c s).2.mark c = some .evaluated := by
+  cases fuel with
+  | zero => rw [evalCell_zero] at hc; exact absurd hc (by simp)
+  | succ fuel =>
+    cases hm : s.mark c with
+    | some m =>
+      cases m with
+      | evaluating => exact absurd hm (hn c)
+      | evaluated => rw [evalCell_evaluated ops wb fuel c s e hw hm]; exact hm
+    | none => rw [evalCell_none ops wb fuel c s e hw hm]; simp [St.finish]
+
+theorem evaluateFrom_nil (ops : NumOps N) (wb : Coord → Cell N) (fuel : Nat) (s : St N) :
+    evaluateFrom ops wb fuel [] s = s := rfl
+
+theorem evaluateFrom_cons (ops : NumOps N) (wb : Coord → Cell N) (fuel : Nat) (c : Coord)
+    (cs : List Coord) (s : St N) :
+    evaluateFrom ops wb fuel (c :: cs) s = evaluateFrom ops wb fuel cs (evalCell ops wb fuel c s).2 :=
+  rfl
+
+theorem evaluateFrom_ext (ops : NumOps N) (wb : Coord → Cell N) (fuel : Nat) :
+    ∀ order s, Ext s (evaluateFrom ops wb fuel order s) := by
+  intro order
+  induction order with
+  | nil => intro s; exact Ext.refl s
+  | cons c cs ih =>
+    intro s
+    rw [evaluateFrom_cons]
+    exact (evalCell_ext ops wb fuel c s).trans (ih _)
+
+theorem evaluateFrom_spec (ops : NumOps N) (wb : Coord → Cell N) (fuel : Nat) :
+    ∀ order s, Good ops wb s → NoEval s → Cond wb (evaluateFrom ops wb fuel order s) →
+      Good ops wb (evaluateFrom ops wb fuel order s) ∧
+      (∀ c e, c ∈ order → wb c = .formula e →
+        (evaluateFrom ops wb fuel order s).mark c = some .evaluated) := by
+  intro order
+  induction order with
+  | nil => intro s hg _ _; exact ⟨hg, fun _ _ h => by cases h⟩
+  | cons c cs ih =>
+    intro s hg hn hc
+    rw [evaluateFrom_cons] at hc ⊢
+    have hext := evaluateFrom_ext ops wb fuel cs (evalCell ops wb fuel c s).2
+    have hc1 : Cond wb (evalCell ops wb fuel c s).2 := Cond.back hext hc
+    have hg1 := (evalCell_ok ops wb fuel).good c s hg hc1
+    have hn1 : NoEval (evalCell ops wb fuel c s).2 := hn.step (evalCell_ext ops wb fuel c s)
+    obtain ⟨g2, m2⟩ := ih _ hg1 hn1 hc
+    refine ⟨g2, ?_⟩
+    intro d e hd hw
+    rcases List.mem_cons.mp hd with h1 | h1
+    · subst h1
+      have := evalCell_evaluated_after ops wb fuel d s e hw hn hc1.1
+      exact (hext.evald d this).1
+    · exact m2 d e h1 hw
+
+theorem good_fresh (ops : NumOps N) (wb : Coord → Cell N) (old : Coord → Val N) :
+    Good ops wb (St.fresh old) ∧ NoEval (St.fresh old) := by
+  refine ⟨⟨?_, ?_, ?_⟩, ?_⟩
+  · intro d e _ hd; simp [St.fresh] at hd
+  · intro x hx; simp [St.fresh] at hx
+  · intro x hx; simp [St.fresh] at hx
+  · intro d hd; simp [St.fresh] at hd
+
+/-- every formula cell is consistent with the values shown by the cells it reads -/
+def Consistent (ops : NumOps N) (wb : Coord → Cell N) (s : St N) : Prop :=
+  ∀ c e, wb c = .formula e →
+    s.mark c = some .evaluated ∧ s.val c = store ops (pureEval ops (lookup wb s) e)
+
+/-- every formula cell is in the evaluation order (`get_all_cells` lists every stored cell) -/
+def Covers (wb : Coord → Cell N) (order : List Coord) : Prop :=
+  ∀ c e, wb c = .formula e → c ∈ order
+
+theorem evaluateFrom_consistent (ops : NumOps N) (wb : Coord → Cell N) (fuel : Nat)
+    (order : List Coord) (old : Coord → Val N) (hcov : Covers wb order)
+    (hc : Cond wb (evaluateFrom ops wb fuel order (St.fresh old))) :
+    Consistent ops wb (evaluateFrom ops wb fuel order (St.fresh old)) ∧
+    G (evaluateFrom ops wb fuel order (St.fresh old)) := by
+  obtain ⟨hg0, hn0⟩ := good_fresh ops wb old
+  obtain ⟨hg, hm⟩ := evaluateFrom_spec ops wb fuel order _ hg0 hn0 hc
+  generalize evaluateFrom ops wb fuel order (St.fresh old) = sF at hg hm
+  refine ⟨?_, hg.g⟩
+  have hl : lookupC wb sF = lookup wb sF := by
+    funext c
+    cases hw : wb c with
+    | empty => simp only [lookupC, lookup, hw]
+    | plain v => simp only [lookupC, lookup, hw]
+    | formula e =>
+      simp only [lookupC, lookup, hw, hm c e (hcov c e hw) hw, if_true]
+  intro c e hw
+  have hmc := hm c e (hcov c e hw) hw
+  refine ⟨hmc, ?_⟩
+  have := hg.inv c e hw hmc sF (Fut.refl sF) hg.g
+  rw [hl] at this
+  exact this
+
+/-! ### the fuel `order.length + 1` suffices -/
+
+theorem filter_length_mono {α : Type} (p q : α → Bool) (h : ∀ x, p x = true → q x = true) :
+    ∀ l : List α, (l.filter p).length ≤ (l.filter q).length := by
+  intro l
+  induction l with
+  | nil => simp
+  | cons a l ih =>
+    cases hp : p a with
+    | true => simp only [List.filter_cons, hp, h a hp, if_true, List.length_cons]; omega
+    | false =>
+      cases hq : q a with
+      | true => simp [hp, hq]; omega
+      | false => simp [hp, hq]; exact ih
+
+theorem filter_length_lt {α : Type} (p q : α → Bool) (h : ∀ x, p x = true → q x = true)
+    (c : α) (hq : q c = true) (hp : p c = false) :
+    ∀ l : List α, c ∈ l → (l.filter p).length < (l.filter q).length := by
+  intro l
+  induction l with
+  | nil => intro hc; cases hc
+  | cons a l ih =>
+    intro hc
+    rcases List.mem_cons.mp hc with h1 | h1
+    · subst h1
+      have := filter_length_mono p q h l
+      simp [hp, hq]; omega
+    · have := ih h1
+      cases hpa : p a with
+      | true => simp only [List.filter_cons, hpa, h a hpa, if_true, List.length_cons]; omega
+      | false =>
+        cases hqa : q a with
+        | true => simp [hpa, hqa]; omega
+        | false => simp [hpa, hqa]; exact this
+
+/-- number of positions of `order` holding a formula cell that is still unmarked -/
+def unm (wb : Coord → Cell N) (order : List Coord) (s : St N) : Nat :=
+  (order.filter (fun d => isFormula (wb d) && (s.mark d).isNone)).length
+
+theorem unm_le_length (wb : Coord → Cell N) (order : List Coord) (s : St N) :
+    unm wb order s ≤ order.length := List.length_filter_le _ _
+
+theorem unm_mono (wb : Coord → Cell N) (order : List Coord) {s t : St N} (h : Ext s t) :
+    unm wb order t ≤ unm wb order s := by
+  apply filter_length_mono
+  intro x hx
+  simp only [Bool.and_eq_true, Option.isNone_iff_eq_none] at hx ⊢
+  refine ⟨hx.1, ?_⟩
+  cases hs : s.mark x with
+  | none => rfl
+  | some m => exact absurd hx.2 (h.marked x (by rw [hs]; simp))
+
+theorem evalExpr_inv {S : Type} (ops : NumOps N) (rd : Coord → S → Val N × S) (P : S → Prop)
+    (hrd : ∀ c s, P s → P (rd c s).2) (e : Expr N) :
+    ∀ s, P s → P (evalExpr ops rd e s).2 :=
+  fun s => evalExpr_rel ops rd (fun a b => P a → P b) (fun _ h => h) (fun _ _ _ h1 h2 h => h2 (h1 h))
+    hrd e s
+
+theorem evalCell_fuel_ok (ops : NumOps N) (wb : Coord → Cell N) (order : List Coord)
+    (hcov : Covers wb order) :
+    ∀ fuel c s, unm wb order s < fuel → s.oof = false → (evalCell ops wb fuel c s).2.oof = false := by
+  intro fuel
+  induction fuel with
+  | zero => intro c s h; omega
+  | succ fuel ih =>
+    intro c s hlt ho
+    cases hw : wb c with
+    | empty => rw [evalCell_empty ops wb fuel c s hw]; exact ho
+    | plain v => rw [evalCell_plain ops wb fuel c s v hw]; exact ho
+    | formula e =>
+      cases hm : s.mark c with
+      | some m =>
+        cases m with
+        | evaluating => rw [evalCell_evaluating ops wb fuel c s e hw hm]; exact ho
+        | evaluated => rw [evalCell_evaluated ops wb fuel c s e hw hm]; exact ho
+      | none =>
+        rw [evalCell_none ops wb fuel c s e hw hm]
+        have hdec : unm wb order (s.setMark c .evaluating) < unm wb order s := by
+          apply filter_length_lt _ _ _ c
+          · simp [isFormula, hw, hm]
+          · simp [St.setMark]
+          · exact hcov c e hw
+          · intro x hx
+            simp only [Bool.and_eq_true, Option.isNone_iff_eq_none, St.setMark] at hx ⊢
+            refine ⟨hx.1, ?_⟩
+            by_cases hxc : x = c
+            · rw [hxc] at hx; simp at hx
+            · simpa [hxc] using hx.2
+        have hP := evalExpr_inv ops (evalCell ops wb fuel)
+          (fun t => unm wb order t < fuel ∧ t.oof = false)
+          (fun d t ht => ⟨Nat.lt_of_le_of_lt (unm_mono wb order (evalCell_ext ops wb fuel d t)) ht.1,
+            ih d t ht.1 ht.2⟩) e (s.setMark c .evaluating)
+          ⟨by omega, by simpa [St.setMark] using ho⟩
+        simpa [St.finish] using hP.2
+
+theorem evaluateFrom_fuel_ok (ops : NumOps N) (wb : Coord → Cell N) (order : List Coord)
+    (hcov : Covers wb order) (fuel : Nat) (hf : order.length < fuel) :
+    ∀ cs s, s.oof = false → (evaluateFrom ops wb fuel cs s).oof = false := by
+  intro cs
+  induction cs with
+  | nil => intro s h; exact h
+  | cons c cs ih =>
+    intro s h
+    rw [evaluateFrom_cons]
+    apply ih
+    exact evalCell_fuel_ok ops wb order hcov fuel c s
+      (Nat.lt_of_le_of_lt (unm_le_length wb order s) hf) h
+
 end IronCalc.Memo
